@@ -879,7 +879,7 @@ func (c *inlCtx) tryCall(st ast.Stmt, call *ast.CallExpr, kind callKind, as *ast
 	tag := fmt.Sprintf("inl%d_%d", c.tf.Line(call.Pos()), c.counter)
 	var pre, post []string // statements before / after the inlined block
 	var complexBack []string
-	var targets []string   // assignment targets for `return e...` inside the body
+	var targets []string // assignment targets for `return e...` inside the body
 	switch kind {
 	case kindExpr:
 		for i := 0; i < nres; i++ {
